@@ -980,3 +980,206 @@ Proof.
   split; [intros [[[-> ->] ->] ->]; reflexivity|intros [= -> -> -> ->]; auto].
 Qed.
 
+
+(* ---------- the wrapped model meets the closed-form step specs (overflow tracking) ---------- *)
+Lemma wur_is_exact unit a L : unit <> 0 -> a_malgos a < W -> a_rbase a < W -> L < W ->
+  with_updated_rewards unit a L = exact_money unit L a.
+Proof.
+  intros Hu Hm Hr HL. unfold with_updated_rewards, exact_money, reward_units.
+  destruct (a_st a =? stNotPart) eqn:Est; [reflexivity|].
+  destruct (N.eqb_spec unit 0) as [|_]; [contradiction|].
+  unfold ot_sub, ot_mul, ot_add. cbn [orb].
+  pose proof (osub_exact 64 L (a_rbase a) HL Hr) as [Hs1 Hs2].
+  destruct (osub 64 L (a_rbase a)) as [delta o1] eqn:E1. cbn [fst snd] in *.
+  destruct (N.leb_spec (a_rbase a) L) as [Hle|Hgt].
+  - assert (o1 = false) by (destruct o1; [destruct Hs1 as [Hs1 _]; specialize (Hs1 eq_refl); lia|reflexivity]).
+    subst o1. destruct (Hs2 eq_refl) as [-> _].
+    assert (Hd : L - a_rbase a < W) by lia.
+    pose proof (omul_exact 64 (a_malgos a / unit) (L - a_rbase a) (div_lt_W _ unit Hm) Hd) as (Hm1 & Hm2 & _).
+    destruct (omul 64 (a_malgos a / unit) (L - a_rbase a)) as [rw o2] eqn:E2. cbn [fst snd] in *.
+    unfold money_at, units_of. rewrite Est.
+    destruct o2.
+    + destruct Hm1 as [Hm1 _]. specialize (Hm1 eq_refl). rewrite M64 in Hm1.
+      destruct (oadd 64 (a_malgos a) rw) as [out o3]. cbn [orb].
+      destruct (N.ltb_spec (a_malgos a + a_malgos a / unit * (L - a_rbase a)) W); [lia|reflexivity].
+    + rewrite (Hm2 eq_refl).
+      assert (Hp : a_malgos a / unit * (L - a_rbase a) < W).
+      { destruct (N.lt_ge_cases (a_malgos a / unit * (L - a_rbase a)) W) as [|Hc]; [assumption|].
+        rewrite <- M64 in Hc. apply Hm1 in Hc. discriminate. }
+      pose proof (oadd_exact 64 (a_malgos a) _ Hm Hp) as [Ha1 Ha2].
+      destruct (oadd 64 (a_malgos a) (a_malgos a / unit * (L - a_rbase a))) as [out o3]. cbn [fst snd orb] in *.
+      destruct o3.
+      * destruct Ha1 as [Ha1 _]. specialize (Ha1 eq_refl). rewrite M64 in Ha1.
+        destruct (N.ltb_spec (a_malgos a + a_malgos a / unit * (L - a_rbase a)) W); [lia|reflexivity].
+      * rewrite (Ha2 eq_refl).
+        destruct (N.ltb_spec (a_malgos a + a_malgos a / unit * (L - a_rbase a)) W) as [|Hc]; [reflexivity|].
+        rewrite <- M64 in Hc. apply Ha1 in Hc. discriminate.
+  - assert (o1 = true) by (apply Hs1; exact Hgt). subst o1.
+    destruct (omul 64 (a_malgos a / unit) delta) as [rw o2]. destruct (oadd 64 (a_malgos a) rw) as [out o3]. reflexivity.
+Qed.
+
+Lemma exact_money_lt unit L a m : a_malgos a < W -> exact_money unit L a = Some m -> m < W.
+Proof.
+  intros Hm. unfold exact_money. destruct (a_st a =? stNotPart); [intros [= <-]; exact Hm|].
+  destruct (a_rbase a <=? L); [|discriminate].
+  destruct (N.ltb_spec (money_at unit L a) W); [intros [= <-]; assumption|discriminate].
+Qed.
+
+Lemma ot_add_spec a b ot : a < W -> b < W -> ot_add a b ot = ((a + b) mod W, ot || (W <=? a + b)).
+Proof. intros Ha Hb. unfold ot_add. rewrite (oadd_spec 64 a b Ha Hb). reflexivity. Qed.
+Lemma ot_sub_spec a b ot : a < W -> b < W -> ot_sub a b ot = ((a + W - b) mod W, ot || (a <? b)).
+Proof. intros Ha Hb. unfold ot_sub. rewrite (osub_spec 64 a b Ha Hb). reflexivity. Qed.
+
+Lemma field_step_ok (add : bool) cm cu m u ot : cm < W -> cu < W -> m < W -> u < W ->
+  let '(m', o1) := (if add then ot_add else ot_sub) cm m ot in
+  let '(u', o2) := (if add then ot_add else ot_sub) cu u o1 in
+  spec_field_step add (mkAC cm cu) m u (mkAC m' u') ot o2 = true.
+Proof.
+  intros Hcm Hcu Hm Hu. destruct add.
+  - rewrite (ot_add_spec cm m ot Hcm Hm), (ot_add_spec cu u _ Hcu Hu).
+    unfold spec_field_step. cbn [c_money c_units]. fold W.
+    rewrite <- orb_assoc, Bool.eqb_reflx. cbn [andb].
+    destruct ot; [reflexivity|]. cbn [orb].
+    destruct (N.leb_spec W (cm + m)); [reflexivity|]. destruct (N.leb_spec W (cu + u)); [reflexivity|]. cbn [orb].
+    rewrite !N.mod_small by assumption. rewrite !N.eqb_refl. reflexivity.
+  - rewrite (ot_sub_spec cm m ot Hcm Hm), (ot_sub_spec cu u _ Hcu Hu).
+    unfold spec_field_step. cbn [c_money c_units].
+    rewrite <- orb_assoc, Bool.eqb_reflx. cbn [andb].
+    destruct ot; [reflexivity|]. cbn [orb].
+    destruct (N.ltb_spec cm m); [reflexivity|]. destruct (N.ltb_spec cu u); [reflexivity|]. cbn [orb].
+    rewrite !mod_once by lia.
+    replace (cm + W - m - W) with (cm - m) by lia. replace (cu + W - u - W) with (cu - u) by lia.
+    rewrite !N.eqb_refl. reflexivity.
+Qed.
+
+Lemma status_field_set st t c c0 : status_field st t = Some c0 -> status_field st (set_field st t c) = Some c.
+Proof.
+  unfold status_field, set_field, stOnline, stOffline, stNotPart.
+  destruct (st =? 1) eqn:E1; [intros _; cbn; reflexivity|].
+  destruct (st =? 0) eqn:E0; [intros _; cbn; reflexivity|].
+  destruct (st =? 2) eqn:E2; [intros _; cbn; reflexivity|discriminate].
+Qed.
+
+Lemma ac_eqb_refl c : ac_eqb c c = true.
+Proof. unfold ac_eqb. rewrite !N.eqb_refl. reflexivity. Qed.
+
+Lemma others_same_set st t c c0 : status_field st t = Some c0 -> others_same st t (set_field st t c) = true.
+Proof.
+  intros Hsf. unfold others_same. rewrite level_set_field, N.eqb_refl. cbn [andb].
+  unfold status_field in Hsf. unfold set_field.
+  destruct (st =? stOnline) eqn:E1; cbn [t_on t_off t_np orb andb].
+  - rewrite !ac_eqb_refl, !orb_true_r. reflexivity.
+  - destruct (st =? stOffline) eqn:E0; cbn [t_on t_off t_np orb andb]; rewrite !ac_eqb_refl, ?orb_true_r; [reflexivity|].
+    destruct (st =? stNotPart); [reflexivity|discriminate].
+Qed.
+
+Theorem add_del_meet_spec (add : bool) unit a t ot :
+  u64 unit = true -> totals_u64 t = true -> acct_ok a = true ->
+  spec_adddel add unit a t ot (if add then add_account unit a t ot else del_account unit a t ot) = true.
+Proof.
+  intros Hun Ht Ha. unfold acct_ok in Ha. apply andb_true_iff in Ha as [Hm Hr]. apply u64_lt in Hm, Hr.
+  unfold totals_u64 in Ht. repeat (apply andb_true_iff in Ht as [Ht ?]).
+  repeat match goal with Hx : u64 _ = true |- _ => apply u64_lt in Hx end.
+  assert (Hflt : forall c, status_field (a_st a) t = Some c -> c_money c < W /\ c_units c < W).
+  { intros c Hc. apply status_field_fld in Hc as [_ ->]. unfold fld, stOnline, stOffline.
+    destruct (a_st a =? 1); [split; assumption|]. destruct (a_st a =? 0); split; assumption. }
+  assert (Hmodel : (if add then add_account unit a t ot else del_account unit a t ot) =
+    match status_field (a_st a) t with
+    | None => None
+    | Some sum =>
+        match with_updated_rewards unit a (t_level t) with
+        | None => None
+        | Some algos =>
+            let '(m, ot1) := (if add then ot_add else ot_sub) (c_money sum) algos ot in
+            match reward_units unit (a_malgos a) with
+            | None => None
+            | Some ru => let '(u, ot2) := (if add then ot_add else ot_sub) (c_units sum) ru ot1 in
+                         Some (set_field (a_st a) t (mkAC m u), ot2)
+            end
+        end
+    end) by (destruct add; reflexivity).
+  rewrite Hmodel. clear Hmodel. unfold spec_adddel.
+  destruct (status_field (a_st a) t) as [c|] eqn:Esf; [|reflexivity].
+  destruct (Hflt c eq_refl) as [Hcm Hcu].
+  destruct (N.eqb_spec unit 0) as [Hu0|Hu0].
+  { subst unit. unfold with_updated_rewards, reward_units. cbn [N.eqb].
+    destruct (a_st a =? stNotPart); [|reflexivity].
+    destruct ((if add then ot_add else ot_sub) (c_money c) (a_malgos a) ot). reflexivity. }
+  rewrite (wur_is_exact unit a (t_level t) Hu0 Hm Hr ltac:(assumption)).
+  destruct (exact_money unit (t_level t) a) as [mm|] eqn:Eem; [|reflexivity].
+  pose proof (exact_money_lt _ _ _ _ Hm Eem) as Hmm.
+  unfold reward_units. destruct (N.eqb_spec unit 0); [contradiction|].
+  pose proof (field_step_ok add (c_money c) (c_units c) mm (a_malgos a / unit) ot Hcm Hcu Hmm (div_lt_W _ unit Hm)) as Hfs.
+  destruct ((if add then ot_add else ot_sub) (c_money c) mm ot) as [m' o1].
+  destruct ((if add then ot_add else ot_sub) (c_units c) (a_malgos a / unit) o1) as [u' o2].
+  rewrite (status_field_set _ _ _ _ Esf), (others_same_set _ _ _ _ Esf), andb_true_r.
+  unfold units_of. destruct c as [cm cu]. exact Hfs.
+Qed.
+
+Lemma leb_absorb x y : (W <=? x) || (W <=? y + x) = (W <=? y + x).
+Proof. destruct (N.leb_spec W x); destruct (N.leb_spec W (y + x)); try reflexivity; lia. Qed.
+
+Lemma ac_apply_spec c r ot : c_money c < W -> c_units c < W -> r < W ->
+  exists m', ac_apply_rewards c r ot = (mkAC m' (c_units c), ot || (W <=? c_money c + c_units c * r)) /\
+             ((W <=? c_money c + c_units c * r) = false -> m' = c_money c + c_units c * r).
+Proof.
+  intros Hm Hu Hr. unfold ac_apply_rewards, ot_mul.
+  pose proof (omul_exact 64 (c_units c) r Hu Hr) as (H1 & H2 & H3).
+  destruct (omul 64 (c_units c) r) as [got o1] eqn:Eo. cbn [fst snd] in *.
+  assert (Hg : got < W) by (pose proof (omul_lt (c_units c) r) as Hl; rewrite Eo in Hl; exact Hl).
+  rewrite (ot_add_spec (c_money c) got _ Hm Hg). eexists. split.
+  - f_equal. rewrite <- orb_assoc. f_equal. destruct o1.
+    + destruct H1 as [H1 _]. specialize (H1 eq_refl). rewrite M64 in H1. cbn [orb]. symmetry. apply N.leb_le. lia.
+    + rewrite (H2 eq_refl). reflexivity.
+  - intros Hn. apply N.leb_gt in Hn. destruct o1.
+    + destruct H1 as [H1 _]. specialize (H1 eq_refl). rewrite M64 in H1. lia.
+    + rewrite (H2 eq_refl). apply N.mod_small. exact Hn.
+Qed.
+
+Theorem rewards_meet_spec level t ot :
+  u64 level = true -> totals_u64 t = true ->
+  spec_rewards level t ot (Some (apply_rewards level t ot)) = true.
+Proof.
+  intros HL Ht. apply u64_lt in HL.
+  unfold totals_u64 in Ht. repeat (apply andb_true_iff in Ht as [Ht ?]).
+  repeat match goal with Hx : u64 _ = true |- _ => apply u64_lt in Hx end.
+  unfold apply_rewards. rewrite (ot_sub_spec level (t_level t) ot HL ltac:(assumption)).
+  set (rpu := (level + W - t_level t) mod W). assert (Hrpu : rpu < W) by apply mod_lt.
+  destruct (ac_apply_spec (t_on t) rpu (ot || (level <? t_level t))) as (mo & Eo & Ho); try assumption.
+  rewrite Eo.
+  destruct (ac_apply_spec (t_off t) rpu ((ot || (level <? t_level t)) || (W <=? c_money (t_on t) + c_units (t_on t) * rpu))) as (mf & Ef & Hf); try assumption.
+  rewrite Ef. unfold spec_rewards. cbn [t_level t_on t_off t_np c_money c_units].
+  rewrite !N.eqb_refl, ac_eqb_refl. cbn [andb].
+  destruct (N.ltb_spec level (t_level t)) as [Hlt|Hge].
+  - rewrite !orb_true_r. cbn [orb]. reflexivity.
+  - assert (Er : rpu = level - t_level t) by (unfold rpu; rewrite mod_once by lia; lia).
+    rewrite Er in *. rewrite !orb_false_r. cbn [orb].
+    destruct ot; [reflexivity|]. cbn [orb].
+    destruct (N.leb_spec W (c_units (t_on t) * (level - t_level t)));
+      destruct (N.leb_spec W (c_money (t_on t) + c_units (t_on t) * (level - t_level t))) as [|E1]; try lia; cbn [orb]; try reflexivity;
+      destruct (N.leb_spec W (c_units (t_off t) * (level - t_level t)));
+      destruct (N.leb_spec W (c_money (t_off t) + c_units (t_off t) * (level - t_level t))) as [|E2]; try lia; cbn [orb Bool.eqb andb]; try reflexivity.
+Qed.
+
+Lemma oadd_opt a b : a < W -> b < W ->
+  (let '(r, o) := oadd 64 a b in if o then None else Some r) = spec_sum2 a b.
+Proof.
+  intros Ha Hb. rewrite (oadd_spec 64 a b Ha Hb). rewrite M64. unfold spec_sum2.
+  destruct (N.leb_spec W (a + b)); destruct (N.ltb_spec (a + b) W); try lia; [reflexivity|].
+  rewrite N.mod_small by assumption. reflexivity.
+Qed.
+
+Theorem all_meets_spec t : totals_u64 t = true ->
+  participating t = spec_sum2 (c_money (t_on t)) (c_money (t_off t)) /\
+  all_money t = match spec_sum2 (c_money (t_on t)) (c_money (t_off t)) with
+                | Some p => spec_sum2 (c_money (t_np t)) p | None => None end /\
+  part_units t = spec_sum2 (c_units (t_on t)) (c_units (t_off t)).
+Proof.
+  intros Ht. unfold totals_u64 in Ht. repeat (apply andb_true_iff in Ht as [Ht ?]).
+  repeat match goal with Hx : u64 _ = true |- _ => apply u64_lt in Hx end.
+  assert (Hp : participating t = spec_sum2 (c_money (t_on t)) (c_money (t_off t))) by (apply oadd_opt; assumption).
+  split; [exact Hp|]. split; [|apply oadd_opt; assumption].
+  unfold all_money. rewrite Hp. destruct (spec_sum2 (c_money (t_on t)) (c_money (t_off t))) as [pp|] eqn:Es; [|reflexivity].
+  apply oadd_opt; [assumption|]. unfold spec_sum2 in Es. destruct (N.ltb_spec (c_money (t_on t) + c_money (t_off t)) W); [|discriminate].
+  inversion Es; subst. assumption.
+Qed.
